@@ -32,7 +32,10 @@ type DetCase struct {
 	OpName string                `json:"opName,omitempty"`
 	Vars   map[string]*model.Val `json:"vars,omitempty"`
 	Others []string              `json:"others,omitempty"` // requests interleaved between repetitions
-	Cache  bool                  `json:"cache"`            // serve through a PlanCache as well
+	// AltVars: the same request text served with other variable values between repetitions
+	// (through Do and, when Cache is set, through the same cache entry)
+	AltVars []map[string]*model.Val `json:"altVars,omitempty"`
+	Cache   bool                    `json:"cache"` // serve through a PlanCache as well
 }
 
 // detModel: a schema with many equidistant names (suggestions), wide input objects, several
@@ -183,9 +186,45 @@ func c12Oracle(c *DetCase) (msg string, multi bool) {
 		pc = graphql.NewPlanCache(graphql.PlanCacheOptions{})
 	}
 	firstCached := ""
+	var altFirst []string
+	cached := func() string {
+		pr := pc.Get(&b.Schema, c.Text, c.OpName)
+		if pr.Plan == nil {
+			return respJSON(&graphql.Result{Errors: pr.Errors})
+		}
+		return respJSON(graphql.ExecutePlan(pr.Plan, graphql.ExecuteParams{Schema: b.Schema, OperationName: c.OpName, Args: vars, Context: sess()}))
+	}
+	if pc != nil {
+		// the first answer through the cache, before anything else was served by that entry
+		firstCached = cached()
+		digest("cached", c.Text, firstCached)
+		if firstCached != first {
+			return fmt.Sprintf("the same request answered through the plan cache differs from the answer without a cache\n  request: %s\n  without: %s\n  cached:  %s", c.Text, first, firstCached), multi
+		}
+	}
 	for k := 0; k < c12K; k++ {
 		for _, o := range c.Others {
 			graphql.Do(graphql.Params{Schema: b.Schema, RequestString: o, Context: sess()})
+		}
+		for i, av := range c.AltVars {
+			alt := map[string]interface{}{}
+			for k, v := range av {
+				alt[k] = v.ToGo()
+			}
+			got := respJSON(graphql.Do(graphql.Params{Schema: b.Schema, RequestString: c.Text, OperationName: c.OpName, VariableValues: alt, Context: sess()}))
+			if len(altFirst) <= i {
+				altFirst = append(altFirst, got)
+			} else if got != altFirst[i] {
+				return fmt.Sprintf("repetition %d of the same request (variable set %d) gave a different response\n  request: %s\n  first: %s\n  now:   %s", k+1, i+1, c.Text, altFirst[i], got), multi
+			}
+			if pc != nil {
+				if pr := pc.Get(&b.Schema, c.Text, c.OpName); pr.Plan != nil {
+					got := respJSON(graphql.ExecutePlan(pr.Plan, graphql.ExecuteParams{Schema: b.Schema, OperationName: c.OpName, Args: alt, Context: sess()}))
+					if got != altFirst[i] {
+						return fmt.Sprintf("the same request (variable set %d) answered through a plan-cache entry that served other variable values before differs from its answer without a cache\n  request: %s\n  variables: %s\n  without: %s\n  cached:  %s", i+1, c.Text, canonJSON(alt), altFirst[i], got), multi
+					}
+				}
+			}
 		}
 		if got := do(); got != first {
 			return fmt.Sprintf("repetition %d of the same request gave a different response\n  request: %s\n  first: %s\n  now:   %s", k+1, c.Text, first, got), multi
@@ -194,18 +233,8 @@ func c12Oracle(c *DetCase) (msg string, multi bool) {
 			return fmt.Sprintf("repetition %d of ValidateDocument gave a different error list\n  request: %s\n  first: %s\n  now:   %s", k+1, c.Text, firstV, got), multi
 		}
 		if pc != nil {
-			pr := pc.Get(&b.Schema, c.Text, c.OpName)
-			var got string
-			if pr.Plan == nil {
-				got = respJSON(&graphql.Result{Errors: pr.Errors})
-			} else {
-				got = respJSON(graphql.ExecutePlan(pr.Plan, graphql.ExecuteParams{Schema: b.Schema, OperationName: c.OpName, Args: vars, Context: sess()}))
-			}
-			if firstCached == "" {
-				firstCached = got
-				digest("cached", c.Text, got)
-			} else if got != firstCached {
-				return fmt.Sprintf("serving the same request through the plan cache gave a different response on lookup %d\n  request: %s\n  first: %s\n  now:   %s", k+1, c.Text, firstCached, got), multi
+			if got := cached(); got != firstCached {
+				return fmt.Sprintf("serving the same request through the plan cache gave a different response on lookup %d\n  request: %s\n  first: %s\n  now:   %s", k+2, c.Text, firstCached, got), multi
 			}
 		}
 	}
@@ -300,7 +329,7 @@ func TestC12_Gen(t *testing.T) {
 		ec, _ := genExecCase(rt, gen.SchemaOpts{Mutation: true}, gen.DocOpts{Budget: 25}, gen.WorldOpts{Adversarial: 40, NoPropagation: false})
 		ec.fix()
 		text := model.Print(ec.Doc, ec.Layout).Text
-		c := &DetCase{Schema: ec.Schema, World: ec.World, Text: text, OpName: ec.OpName, Vars: ec.Vars, Cache: gen.Chance(rt, 50, "cache")}
+		c := &DetCase{Schema: ec.Schema, World: ec.World, Text: text, OpName: ec.OpName, Vars: ec.Vars, AltVars: ec.AltVars, Cache: gen.Chance(rt, 50, "cache")}
 		if gen.Chance(rt, 50, "others") {
 			c.Others = []string{`{ __typename }`, `{ nope }`}
 		}
